@@ -189,6 +189,28 @@ Theorem C09_remove_file_any_depth : forall lg ft (s0 s1 : mstate) hs (p : path) 
     forall q, user_path q -> view s0' s1 q = if decide (q = p) then None else view s0 s1 q.
 Proof. exact remove_file_deep. Qed.
 
+(** remove_dir on a directory the view shows with no entries - the directory in the write layer, in the
+    lower layer or in both, its former entries deleted or never there: exactly that entry vanishes *)
+Theorem C09_remove_dir_any_depth : forall lg ft (s0 s1 : mstate) hs (p : path),
+  wf s0 -> p <> [] -> user_path p -> no_collision p ->
+  (is_Some (s0 !! p) -> s0 !! whiteout_path (v0, []) p = None) ->
+  view s0 s1 p = Some NDir -> (forall n, view s0 s1 (p ++ [n]) = None) ->
+  (s0 !! (whiteout_name :: p) = None \/ is_dir s0 (whiteout_name :: p)) ->
+  Forall (not_file s0) (prefixes (removelast (whiteout_path (v0, []) p))) ->
+  exists s0',
+    run bhandler (ovl_impl (v0, []) [(v1, [])] (CRemoveDir p)) (mstore2 s0 s1 hs lg ft) =
+      (mstore2 s0' s1 (hs ++ [HClosed]) lg ft, Ok tt) /\
+    wf s0' /\
+    forall q, user_path q -> view s0' s1 q = if decide (q = p) then None else view s0 s1 q.
+Proof. exact remove_dir_deep. Qed.
+
+(** removing what the view does not show (never there, or deleted): not-found, neither layer changes *)
+Theorem C09_remove_absent : forall lg ft (s0 s1 : mstate) hs (p : path),
+  p <> [] -> view s0 s1 p = None ->
+  run bhandler (ovl_impl (v0, []) [(v1, [])] (CRemoveFile p)) (mstore2 s0 s1 hs lg ft) = (mstore2 s0 s1 hs lg ft, fail ENotFound) /\
+  run bhandler (ovl_impl (v0, []) [(v1, [])] (CRemoveDir p)) (mstore2 s0 s1 hs lg ft) = (mstore2 s0 s1 hs lg ft, fail ENotFound).
+Proof. exact remove_absent. Qed.
+
 Theorem C09_collision_hypothesis_is_needed : ~ no_collision [[97%N] ++ wo_suffix; [120%N]].
 Proof. exact collision_example. Qed.
 
@@ -243,3 +265,5 @@ Print Assumptions C09_create_dir_occupied_any_depth.
 Print Assumptions C09_any_depth_example.
 Print Assumptions C09_remove_file_any_depth.
 Print Assumptions C09_collision_hypothesis_is_needed.
+Print Assumptions C09_remove_dir_any_depth.
+Print Assumptions C09_remove_absent.
